@@ -97,6 +97,8 @@ type vhConn struct {
 	denied  bool   // the protected-mode refusal was written
 	outs    []string // everything written to the socket, one entry per write
 	afterFirst func() // runs when the second packet is requested (something another client did in between)
+	stream  []byte // when set: a byte stream handed out as far as each read's buffer goes (instead of packets)
+	spos    int
 }
 
 var vhNativeAckFailed bool
@@ -111,6 +113,15 @@ func vhLogContent(s *Server) string {
 
 func (c *vhConn) Read(p []byte) (int, error) {
 	vgate("Read")
+	if c.stream != nil {
+		if c.spos >= len(c.stream) {
+			return 0, errors.New("closed")
+		}
+		n := copy(p, c.stream[c.spos:])
+		c.spos += n
+		c.next++
+		return n, nil
+	}
 	if c.next >= len(c.packets) {
 		return 0, errors.New("closed")
 	}
